@@ -164,7 +164,7 @@ def write_mask_case(work, rng, H, W, arr_origin, arr_shape, window):
                 observed=dict(mask_mismatches=int((mask != exp_m).sum()) if err is None else None))
 
 
-def write_blocks_case(work, rng, H, W):
+def write_blocks_case(work, rng, H, W, variant='once'):
     """Several blocks written one after the other into a FRESH dataset without a nodata value (what fuse does with nodata = None): the blocks tile
     the dataset, some are valid everywhere, some hold invalid pixels, the order is shuffled.  Reading back returns what was written: pixels
     and validity of every block at its place."""
@@ -184,11 +184,31 @@ def write_blocks_case(work, rng, H, W):
             valid[r + rng.randrange(h), c + rng.randrange(w)] = False
         elif kind == 'all-invalid':
             valid[r:r + h, c:c + w] = False
+    if variant == 'nothing-valid':
+        # every block is invalid everywhere (a band without data): the dataset then reads back invalid everywhere
+        valid[:] = False
+        kinds = ['all-invalid'] * len(tiles)
     prof = dict(driver='GTiff', width=W, height=H, count=1, dtype='float32', crs=synth.UTM, transform=T0, nodata=None)
     err = None
+    writes = [(t, valid[t[0]:t[0] + t[2], t[1]:t[1] + t[3]].copy()) for t in tiles]
+    if variant == 'rewrite':
+        # a second pass over some windows: what is read back is what was written LAST - a block that blanks a window written before
+        # (all invalid), a block that fills a window blanked before, a block that moves the invalid pixel
+        for i, (r, c, h, w) in enumerate(tiles):
+            v2 = valid[r:r + h, c:c + w].copy()
+            if i % 3 == 0:
+                v2[:] = False if v2.any() else True
+            elif i % 3 == 1:
+                v2[:] = True
+                v2[rng.randrange(h), rng.randrange(w)] = False
+            else:
+                continue
+            writes.append(((r, c, h, w), v2))
+            valid[r:r + h, c:c + w] = v2
+            kinds.append(f'rewrite tile {i}: ' + ('all-invalid' if not v2.any() else 'all-valid' if v2.all() else 'some-invalid'))
     with rio.Env(GDAL_NUM_THREADS=1, GDAL_TIFF_INTERNAL_MASK=True), rio.open(path, 'w', **prof) as ds:
-        for (r, c, h, w) in tiles:
-            arr = np.where(valid[r:r + h, c:c + w], vals[r:r + h, c:c + w], np.float32('nan')).astype('float32')
+        for ((r, c, h, w), v_) in writes:
+            arr = np.where(v_, vals[r:r + h, c:c + w], np.float32('nan')).astype('float32')
             ra = RasterArray(arr, synth.UTM, T0 * Affine.translation(c, r), nodata=float('nan'))
             try:
                 ra.to_rio_dataset(ds, indexes=1, window=Window(c, r, w, h))
@@ -198,6 +218,6 @@ def write_blocks_case(work, rng, H, W):
         after = ds.read(1)
         mask = ds.dataset_mask() > 0
     ok = err is None and np.array_equal(mask, valid) and bool(np.all((after == vals) | ~valid))
-    return dict(oracle_ok=bool(ok), err=err, desc=dict(H=H, W=W, tiles=[list(t) for t in tiles], tile_kinds=kinds, dataset_nodata=None),
+    return dict(oracle_ok=bool(ok), err=err, desc=dict(H=H, W=W, variant=variant, tiles=[list(t) for t in tiles], tile_kinds=kinds, dataset_nodata=None),
                 observed=dict(mask_mismatches=int((mask != valid).sum()) if err is None else None, valid_expected=int(valid.sum()),
                               valid_read=int(mask.sum()) if err is None else None))
